@@ -936,7 +936,7 @@ def run(chk) -> None:
 MANIFEST_ENTRY = {
     "text": "Static decision of the structural clauses of the base-pair definition on the current source: radius 4.0 (folded), donor-acceptor only, different residues, both angles in "
     "50-130 degrees (cell-by-cell accept region with unit tracking), cis iff |torsion| < 90 degrees over C1'-N9/N1..N9/N1-C1', at least two contacts, no edge used twice (guarded insert), and "
-    "maximality as a closed-world rule: a candidate can only be skipped for too few contacts or an occupied edge. Tables are pinned by value and cross-checked for closure.",
+    "maximality as a closed-world rule: a candidate can only be skipped for too few contacts or an occupied edge. Tables are pinned by value and cross-checked for closure. Since round 3 every clause is decided first by fact-level rules (checks/c03e.py, c03v.py): the contact loop and the selection loop are executed symbolically path by path (sa/symexec.py) and evaluated by value on representative residues and contact lists, whatever the shape of the code; the pinned forms are per-aspect fallbacks.",
     "note": "Trusted: KD-tree completeness, pinned Leontis-Westhof tables. Not decided: floating-point geometry, which atoms define the base normal beyond the stated triple, O2' consumption order between base-ribose and base-base detection.",
-    "technique": "static analysis: constant folding, reaching-definition inlining, accept-region evaluation of threshold guards over the cell partition, closed-world guard classification, table agreement",
+    "technique": "static analysis: constant folding, reaching-definition inlining, accept-region evaluation of threshold guards over the cell partition, closed-world guard classification, table agreement + symbolic path execution and fragment evaluation of the ast on finite input-class representatives (nothing of the library is imported or run)",
 }
